@@ -1,6 +1,9 @@
 package scanner
 
 import (
+	"fmt"
+	"strings"
+
 	"github.com/jsightapi/jsight-schema-core/bytes"
 	"github.com/jsightapi/jsight-schema-core/fs"
 	"github.com/jsightapi/jsight-schema-core/kit"
@@ -105,10 +108,32 @@ func (s *Scanner) readEnumWithJsc() (uint, *jerr.JApiError) {
 	fc := s.file.Content()
 	file := fs.NewFile("", fc.Sub(s.curIndex, fc.LenIndex()))
 
-	l, err := enum.FromFile(file).Len()
+	l, ranOff, err := enumLen(file)
+	if ranOff {
+		// The enum scanner of the schema library ran past the end of the content: the
+		// body (or an annotation which follows it) is not finished.
+		return 0, s.japiError("Unexpected end of file", fc.LenIndex())
+	}
 	if err != nil {
 		err := kit.ConvertError(file, err)
 		return 0, s.japiError(err.Message(), s.curIndex+bytes.Index(err.Index()))
 	}
 	return l, nil
+}
+
+// enumLen computes the length of the enum body at the beginning of the file. Unlike
+// jschema.Len, enum.Len does not recover from the panic of its scanner when the
+// content ends inside a multi-line annotation ("[1 /* y*", "[1] /* x").
+func enumLen(file *fs.File) (l uint, ranOff bool, err error) {
+	defer func() {
+		if r := recover(); r != nil {
+			if e, ok := r.(error); ok && strings.Contains(e.Error(), "index out of range") {
+				ranOff = true
+				return
+			}
+			err = fmt.Errorf("%v", r)
+		}
+	}()
+	l, err = enum.FromFile(file).Len()
+	return l, false, err
 }
